@@ -124,8 +124,13 @@ Definition pend_is (id : string) (n : nat) (p : pend) : bool := String.eqb (pd_i
 Definition find_pend (id : string) (n : nat) (l : list pend) : option pend := find (pend_is id n) l.
 Definition remove_pend (id : string) (n : nat) (l : list pend) : list pend :=
   filter (fun p => negb (pend_is id n p)) l.
-Definition set_ready (id : string) (n : nat) (c : cpl) (l : list pend) : list pend :=
-  map (fun p => if pend_is id n p then mkPend (pd_id p) (pd_n p) (pd_sub p) (pd_group p) (Some c) else p) l.
+(* the submission (id, n) -- the one find_pend returns -- gets its completion *)
+Fixpoint set_ready (id : string) (n : nat) (c : cpl) (l : list pend) : list pend :=
+  match l with
+  | [] => []
+  | p :: l' => if pend_is id n p then mkPend (pd_id p) (pd_n p) (pd_sub p) (pd_group p) (Some c) :: l'
+               else p :: set_ready id n c l'
+  end.
 
 (* collect the deliveries of a tick: every (id, n) must be a completion waiting in the cq *)
 Fixpoint take_deliveries (dl : list (string * nat)) (pl : list pend)
@@ -243,10 +248,21 @@ Fixpoint set_batch_ready (batch : list exec_item) (rss : option (list (list resu
     set_batch_ready batch' (option_map (@tl _) rss) (set_ready (ex_id e) (ex_n e) c pl)
   end.
 
+(* a coroutine id (Tags["id"]) names one live coroutine: an arriving request or a starting background
+   coroutine must not reuse the id of an instance that is still running or has submissions in flight *)
+Definition id_used (s : sys) (id : string) : bool :=
+  existsb (fun i => String.eqb (i_id i) id) (s_insts s) || existsb (fun p => String.eqb (pd_id p) id) (s_pend s).
+Fixpoint ids_fresh (s : sys) (ids : list string) : bool :=
+  match ids with
+  | [] => true
+  | id :: ids' => negb (id_used s id) && negb (existsb (String.eqb id) ids') && ids_fresh s ids'
+  end.
+
 Definition step (cfg : config) (s : sys) (d : directive) : option (sys * list obs) :=
   match d with
   | DTick t deliver bgs arrive =>
     if t <? s_now s then None else
+    if negb (ids_fresh s (map fst bgs ++ map fst arrive)) then None else
     match take_deliveries deliver (s_pend s) with
     | None => None
     | Some (ds, pl) =>
